@@ -129,7 +129,7 @@ func VerifC07_v1_main_graceful() {
 		vAssert(e.sends == total, "C02: at graceful termination everything written before the close was handed out exactly once")
 	}
 	vAssert(vAnd(vIsClosed(d.err), vIsClosed(d.inputAdds), vIsClosed(d.inputRmvs)), "C19: main closes its channels")
-	vAssert(vTickerStops() == 1, "C19: the interrupter ticker is stopped when main returns")
+	vAssert(vTickersRunning() == 0, "C19: the interrupter ticker is not left running when main returns")
 }
 
 // promptness of GracefulStop under the documented precondition (every share >= 1)
